@@ -38,6 +38,9 @@ func buildQuery(c *Ctx, i int, wantModel bool, forCVC5 bool) string {
 	}
 	b.WriteString("(set-logic ALL)\n")
 	for k, d := range c.decls[:it.DeclPos] {
+		if strings.HasPrefix(d, "LAMBDA\t") {
+			d = expandLambdaDecl(d, forCVC5)
+		}
 		b.WriteString(d)
 		b.WriteByte('\n')
 		if k == 5 {
@@ -72,6 +75,9 @@ func buildQuery(c *Ctx, i int, wantModel bool, forCVC5 bool) string {
 			}
 		}
 		b.WriteString("(assert " + implies(p.Guard, p.Formula) + ")\n")
+	}
+	for _, h := range it.Hyps {
+		b.WriteString("(assert " + implies(it.Guard, h) + ")\n")
 	}
 	b.WriteString("(assert " + and(it.Guard, not(it.Formula)) + ")\n")
 	b.WriteString("(check-sat)\n")
@@ -119,18 +125,19 @@ type solverAns struct {
 
 // race runs the solvers concurrently on one query file; the first definite
 // answer (sat/unsat) wins and the others are killed.
-func race(file string, timeout int, skipCVC5 bool, quickFirst bool) (solverAns, []solverAns) {
+func race(file, cvcFile string, timeout int) (solverAns, []solverAns) {
 	ctx, cancel := context.WithTimeout(context.Background(), time.Duration(timeout+5)*time.Second)
 	defer cancel()
 	ch := make(chan solverAns, len(solvers))
 	n := 0
 	for _, s := range solvers {
-		if skipCVC5 && strings.HasPrefix(s.name, "cvc5") {
-			continue
-		}
 		n++
 		go func(s solverSpec) {
-			args := s.cmd(file, timeout)
+			qf := file
+			if strings.HasPrefix(s.name, "cvc5") {
+				qf = cvcFile
+			}
+			args := s.cmd(qf, timeout)
 			cmd := exec.CommandContext(ctx, args[0], args[1:]...)
 			var out bytes.Buffer
 			cmd.Stdout = &out
@@ -174,6 +181,12 @@ func discharge(c *Ctx, i int, fnKey string, tmp string, timeout int) ObResult {
 	os.WriteFile(file, []byte(q), 0o644)
 	defer os.Remove(file)
 	hasLambda := strings.Contains(q, "(lambda ")
+	cvcFile := file
+	if hasLambda {
+		cvcFile = filepath.Join(tmp, fmt.Sprintf("q_%p_%d_cvc5.smt2", c, i))
+		os.WriteFile(cvcFile, []byte(buildQuery(c, i, false, true)), 0o644)
+		defer os.Remove(cvcFile)
+	}
 	// first a short run of the default solver alone (most obligations are
 	// trivial); then the full race
 	var win solverAns
@@ -184,7 +197,7 @@ func discharge(c *Ctx, i int, fnKey string, tmp string, timeout int) ObResult {
 		all = []solverAns{win}
 	} else {
 		r.Seconds += dt
-		win, all = race(file, timeout, hasLambda, false)
+		win, all = race(file, cvcFile, timeout)
 	}
 	var outputs []string
 	for _, a := range all {
